@@ -205,6 +205,11 @@ func stackViewFindings(c *Ctx, a *aliasAn, ln *litNamer) (finds []aliasFinding, 
 					for _, r := range x.Results {
 						if isStack(a.t[r]) {
 							nsites++
+							if fn.Object() != nil && !fn.Object().Exported() && fn.Parent() == nil {
+								// an unexported helper may hand the view to its callers in the package: the view is
+								// followed there through the helper's summary
+								continue
+							}
 							finds = append(finds, aliasFinding{fn: fn, id: id, key: id + "|stack view returned", pos: x.Pos(),
 								what: "a view of the VM value stack is returned"})
 						}
